@@ -107,6 +107,29 @@ func.func @f(%A : {ta}, %B : {tb}, %C : {tc}) {{
 """
 
 
+def bgemmx_src(Bt, M, N, K, lays):
+    """batched matmul D[b] = A[b] * B[b] on snax_gemmx: a fourth loop around the three of a matmul; with operand layouts
+    whose loops do not merge, B / D need more temporal loops than their streamers have."""
+    ta = f"memref<{Bt}x{M}x{K}xi8{', ' + lays[0] if lays[0] else ''}>"
+    tb = f"memref<{Bt}x{K}x{N}xi8{', ' + lays[1] if lays[1] else ''}>"
+    tc = f"memref<{Bt}x{M}x{N}xi32{', ' + lays[2] if lays[2] else ''}>"
+    return f"""
+func.func @f(%A : {ta}, %B : {tb}, %C : {tc}) {{
+  %z = arith.constant 0 : i32
+  "dart.operation"(%A, %B, %C) <{{patterns = [affine_map<(d0, d1, d2, d3) -> (d0, d1, d3)>, affine_map<(d0, d1, d2, d3) -> (d0, d3, d2)>, affine_map<(d0, d1, d2, d3) -> (d0, d1, d2)>], accelerator = "snax_gemmx", operandSegmentSizes = array<i32: 2, 1>}}> ({{
+  ^bb0(%s0 : !dart.stream<i8>, %s1 : !dart.stream<i8>, %s2 : !dart.stream<i32>):
+    %g = "dart.generic"(%s0, %s1, %z, %z) <{{library_call = "snax_gemmx"}}> ({{
+    ^bb1(%a : i8, %b : i8, %za : i32, %zb : i32, %acc : i32):
+      %m = kernel.qmac %a, %b zp_lhs : %za zp_rhs : %zb : i8, i8, i32, i32 -> i32
+      dart.yield %m : i32
+    }}) : (!dart.stream<i8>, !dart.stream<i8>, i32, i32) -> !dart.stream<i32>
+    dart.yield %g : !dart.stream<i32>
+  }}) : ({ta}, {tb}, {tc}) -> ()
+  func.return
+}}
+"""
+
+
 def gemm4_src(ta, tb, tc, td):
     """D = A*B + C on snax_gemmx (four operands, i32 output)"""
     return f"""
@@ -227,6 +250,7 @@ def observe(src, acc_name, pre_passes, set_layout):
         tdims = template.num_dims
         try:
             xshim.apply_passes(m, "convert-dart-to-snax-stream", main)
+            m.verify()  # as the pass manager does after every pass: the op verifier is part of what is accepted
         except Exception as e:  # the conversion rejects this access pattern: the resolution result is still checked
             return sched, ap, None, tdims, f"{type(e).__name__}: {str(e)[:60]}"
         R = [o for o in m.walk() if isinstance(o, snax_stream.StreamingRegionOp)][0]
@@ -350,6 +374,10 @@ def check(src, acc_name, pre_passes, set_layout, what):
         pg = st.get("programmed") or {}
         if "error" not in pg and st.get("name"):
             nm = st["name"]
+            # a loop of the pattern beyond the streamer's own loops has no registers: its iterations would be dropped
+            extra = [i for i in range(len(st["flags"]), len(ub)) if ub[i] != 1]
+            E.oblige("programmed:every_temporal_loop_of_the_pattern_has_registers", z3.BoolVal(not extra),
+                     dict(stream=k, streamer=nm, pattern_loops=len(ub), streamer_loops=len(st["flags"]), ub=ub, what=what))
             for i in range(len(st["flags"])):
                 bi = ub[i] if i < len(ub) else 1
                 si = ts[i] if i < len(ts) else 0
@@ -374,6 +402,9 @@ def case_pipeline(case):
     elif kind == "gemmx":
         _, (M, N, K), i8out, lays, setl = case
         src, acc, pre = gemmx_src(M, N, K, i8out, lays), "snax_gemmx", ["dart-scheduler"]
+    elif kind == "bgemmx":
+        _, (Bt, M, N, K), lays, setl = case
+        src, acc, pre = bgemmx_src(Bt, M, N, K, lays), "snax_gemmx", ["dart-scheduler"]
     elif kind == "xdma_add":
         src, acc, pre, setl = xdma_add_src(case[1], case[2] if len(case) > 2 else None), "snax_xdma", ["dart-scheduler"], None
     elif kind in ("gemm4", "gemm4b"):
@@ -478,6 +509,13 @@ def run(chk):
         if mode is not None:
             la = lb = None
         cases.append(("gemmx", (M, N, K), rnd.random() < 0.5, (la, lb, None), mode))
+    # batched matmul: a fourth loop; with layouts whose loops do not merge the B / D streamers (3 loops) cannot express
+    # the pattern - refused or right
+    for Bt, M, N, K in ((2, 16, 16, 16), (3, 16, 8, 16)) + (() if quick else ((2, 24, 16, 8), (4, 8, 16, 16))):
+        cases.append(("bgemmx", (Bt, M, N, K), (None, None, None), None))
+        cases.append(("bgemmx", (Bt, M, N, K), (None, f"strided<[{K * N}, 1, {K}]>", None), None))
+        cases.append(("bgemmx", (Bt, M, N, K), (None, f"strided<[{K * N}, 1, {K}]>", f"#tsl.tsl<[{Bt}] -> ({M * N}), [{M // 8}, 8] -> ({64 * (N // 8)}, 8), [{N // 8}, 8] -> (64, 1)>"), None))
+        cases.append(("bgemmx", (Bt, M, N, K), (None, None, None), "tiled"))
     # direct schedules with explicit TSL layouts
     cases.append(("direct", "memref<32x16xi8, #tsl.tsl<[4, 8] -> (128, 8), [2, 8] -> (64, 1)>>", "memref<16x16xi8, #tsl.tsl<[2, 8] -> (64, 1), [2, 8] -> (128, 8)>>",
                   "memref<32x16xi32, #tsl.tsl<[4, 8] -> (64, 8), [2, 8] -> (256, 1)>>", 2))
